@@ -69,6 +69,7 @@ type symExec struct {
 	printer ssa.Value // parameter receiving Print/Printf (nil: collect the returned string instead)
 	paths   []symPath
 	limit   int
+	steps   int
 	bad     string
 }
 
@@ -153,20 +154,94 @@ func (se *symExec) condOf(c ssa.Value) (key string, positive bool, ok bool) {
 }
 
 func (se *symExec) run(start *ssa.BasicBlock, initial symText) {
-	se.runFrom(start, initial, map[string]bool{}, 0)
+	se.runFrom(start, initial, map[string]bool{}, 0, newSymState())
+}
+
+// symState is what a path knows besides the text printed so far: symbolic strings, concrete integers and booleans
+// (loop counters over argument lists of known length), slices whose elements are known (variadic argument lists,
+// argument lists built by append) and the arrays behind them.
+type symState struct {
+	env    map[ssa.Value]symText
+	ints   map[ssa.Value]int64
+	bools  map[ssa.Value]bool
+	slices map[ssa.Value][]symText
+	arrs   map[ssa.Value]map[int64]symText
+}
+
+func newSymState() *symState {
+	return &symState{map[ssa.Value]symText{}, map[ssa.Value]int64{}, map[ssa.Value]bool{}, map[ssa.Value][]symText{}, map[ssa.Value]map[int64]symText{}}
+}
+
+func (st *symState) clone() *symState {
+	n := newSymState()
+	for k, v := range st.env {
+		n.env[k] = v
+	}
+	for k, v := range st.ints {
+		n.ints[k] = v
+	}
+	for k, v := range st.bools {
+		n.bools[k] = v
+	}
+	for k, v := range st.slices {
+		n.slices[k] = v
+	}
+	for k, v := range st.arrs {
+		m := map[int64]symText{}
+		for i, t := range v {
+			m[i] = t
+		}
+		n.arrs[k] = m
+	}
+	return n
+}
+
+func (st *symState) intOf(v ssa.Value) (int64, bool) {
+	if k, ok := st.ints[v]; ok {
+		return k, true
+	}
+	if c, ok := v.(*ssa.Const); ok {
+		return sx.ConstInt(c)
+	}
+	return 0, false
+}
+
+// sliceOf: the known elements of a slice value (a nil constant is the empty slice).
+func (se *symExec) sliceOf(v ssa.Value, st *symState) ([]symText, bool) {
+	if el, ok := st.slices[v]; ok {
+		return el, true
+	}
+	if c, ok := v.(*ssa.Const); ok && c.IsNil() {
+		return nil, true
+	}
+	// a literal argument list whose stores are all in straight-line code
+	if sl, ok := v.(*ssa.Slice); ok {
+		if _, isAlloc := sl.X.(*ssa.Alloc); isAlloc && sl.Low == nil && sl.High == nil {
+			if _, tracked := st.arrs[sl.X]; !tracked {
+				var out []symText
+				for _, a := range varargs(v) {
+					if a == nil {
+						return nil, false
+					}
+					out = append(out, se.evalText(a, st.env, 0))
+				}
+				return out, true
+			}
+		}
+	}
+	return nil, false
 }
 
 type symFrame struct {
 	b     *ssa.BasicBlock
 	idx   int // first instruction to execute
 	pred  *ssa.BasicBlock
-	env   map[ssa.Value]symText
+	st    *symState
 	conds map[string]bool
 	out   symText
-	seen  map[*ssa.BasicBlock]bool
 }
 
-func (se *symExec) runFrom(start *ssa.BasicBlock, initial symText, conds map[string]bool, depth int) {
+func (se *symExec) runFrom(start *ssa.BasicBlock, initial symText, conds map[string]bool, depth int, st0 *symState) {
 	var walk func(f symFrame)
 	walk = func(f symFrame) {
 		if se.bad != "" {
@@ -176,73 +251,218 @@ func (se *symExec) runFrom(start *ssa.BasicBlock, initial symText, conds map[str
 			se.bad = "too many paths"
 			return
 		}
-		seen := f.seen
-		env := f.env
+		se.steps++
+		if se.steps > 4000 {
+			se.bad = "loop in " + load.FnName(se.fn) + " whose trip count is not fixed by the arguments"
+			return
+		}
+		st := f.st
 		if f.idx == 0 {
-			if f.seen[f.b] {
-				se.bad = "loop in " + load.FnName(se.fn)
-				return
+			st = f.st.clone()
+			// the phis of a block are assigned simultaneously
+			type upd struct {
+				phi *ssa.Phi
+				t   symText
+				n   int64
+				isN bool
+				sl  []symText
+				isS bool
 			}
-			seen = map[*ssa.BasicBlock]bool{f.b: true}
-			for k := range f.seen {
-				seen[k] = true
+			var ups []upd
+			for _, in := range f.b.Instrs {
+				x, ok := in.(*ssa.Phi)
+				if !ok {
+					break
+				}
+				for i, p := range f.b.Preds {
+					if p != f.pred {
+						continue
+					}
+					u := upd{phi: x}
+					if n, ok := st.intOf(x.Edges[i]); ok {
+						u.n, u.isN = n, true
+					} else if sl, ok := se.sliceOf(x.Edges[i], st); ok && isSliceT(x.Type()) {
+						u.sl, u.isS = sl, true
+					} else {
+						u.t = se.evalText(x.Edges[i], st.env, 0)
+					}
+					ups = append(ups, u)
+				}
 			}
-			env = map[ssa.Value]symText{}
-			for k, v := range f.env {
-				env[k] = v
+			for _, u := range ups {
+				delete(st.env, u.phi)
+				delete(st.ints, u.phi)
+				delete(st.slices, u.phi)
+				switch {
+				case u.isN:
+					st.ints[u.phi] = u.n
+				case u.isS:
+					st.slices[u.phi] = u.sl
+				default:
+					st.env[u.phi] = u.t
+				}
 			}
 		}
+		env := st.env
 		out := append(symText{}, f.out...)
 		for ii := f.idx; ii < len(f.b.Instrs); ii++ {
 			in := f.b.Instrs[ii]
 			switch x := in.(type) {
 			case *ssa.Phi:
-				for i, p := range f.b.Preds {
-					if p == f.pred {
-						env[x] = se.evalText(x.Edges[i], env, 0)
+				// assigned on block entry
+			case *ssa.Alloc:
+				if _, isArr := sx.Deref(x.Type()).Underlying().(*types.Array); isArr {
+					st.arrs[x] = map[int64]symText{}
+				}
+			case *ssa.Store:
+				if ia, ok := x.Addr.(*ssa.IndexAddr); ok {
+					if cells, tracked := st.arrs[ia.X]; tracked {
+						if k, ok := st.intOf(ia.Index); ok {
+							cells[k] = se.evalText(x.Val, env, 0)
+						} else {
+							se.bad = "store at an index that is not fixed by the arguments"
+							return
+						}
 					}
 				}
+			case *ssa.Slice:
+				if cells, tracked := st.arrs[x.X]; tracked && x.Low == nil && x.High == nil {
+					arr := sx.Deref(x.X.Type()).Underlying().(*types.Array)
+					el := make([]symText, arr.Len())
+					for i := range el {
+						if t, ok := cells[int64(i)]; ok {
+							el[i] = t
+						} else {
+							el[i] = symText{{Other: "unset element"}}
+						}
+					}
+					st.slices[x] = el
+				}
+			case *ssa.UnOp:
+				// an element of a known slice
+				if ia, ok := x.X.(*ssa.IndexAddr); ok && x.Op == token.MUL {
+					if el, ok := se.sliceOf(ia.X, st); ok {
+						if k, ok := st.intOf(ia.Index); ok && k >= 0 && int(k) < len(el) {
+							env[x] = el[k]
+						}
+					}
+				}
+			case *ssa.BinOp:
+				a, okA := st.intOf(x.X)
+				b, okB := st.intOf(x.Y)
+				if okA && okB {
+					switch x.Op {
+					case token.ADD:
+						st.ints[x] = a + b
+					case token.SUB:
+						st.ints[x] = a - b
+					case token.LSS:
+						st.bools[x] = a < b
+					case token.LEQ:
+						st.bools[x] = a <= b
+					case token.GTR:
+						st.bools[x] = a > b
+					case token.GEQ:
+						st.bools[x] = a >= b
+					case token.EQL:
+						st.bools[x] = a == b
+					case token.NEQ:
+						st.bools[x] = a != b
+					}
+				} else if x.Op == token.ADD && isStringType(x.Type()) {
+					// evaluated where it stands: its operands may be loop-carried
+					delete(env, x)
+					env[x] = se.evalText(x, env, 0)
+				}
 			case *ssa.Call:
+				if b, ok := x.Call.Value.(*ssa.Builtin); ok {
+					switch b.Name() {
+					case "len":
+						if el, ok := se.sliceOf(x.Call.Args[0], st); ok {
+							st.ints[x] = int64(len(el))
+						}
+					case "append":
+						base, ok1 := se.sliceOf(x.Call.Args[0], st)
+						add, ok2 := se.sliceOf(x.Call.Args[1], st)
+						if ok1 && ok2 {
+							st.slices[x] = append(append([]symText{}, base...), add...)
+						}
+					}
+					continue
+				}
 				if se.printer != nil && x.Call.IsInvoke() && x.Call.Value == se.printer {
 					switch x.Call.Method.Name() {
 					case "Print":
-						for _, a := range varargs(x.Call.Args[0]) {
-							out = append(out, se.evalText(a, env, 0)...)
+						el, ok := se.sliceOf(x.Call.Args[0], st)
+						if !ok {
+							se.bad = "argument list of Print is not known"
+							return
+						}
+						for _, t := range el {
+							out = append(out, t...)
 						}
 					case "Printf":
-						format, ok := sx.ConstString(x.Call.Args[0])
+						format, ok := constText(se.evalText(x.Call.Args[0], env, 0))
 						if !ok {
 							se.bad = "non-constant format"
 							return
 						}
-						out = append(out, se.printfText(format, varargs(x.Call.Args[1]), env)...)
+						el, ok := se.sliceOf(x.Call.Args[1], st)
+						if !ok {
+							se.bad = "argument list of Printf is not known"
+							return
+						}
+						out = append(out, printfText(format, el)...)
 					}
 					continue
 				}
-				// a helper of the module that receives the value being printed and the printer: execute it in line
-				if se.printer != nil && depth < 3 {
-					if callee := sx.Callee(x); callee != nil && callee.Blocks != nil && load.IsModPath(pkgPathOf(callee)) {
-						ri, pi := -1, -1
-						for i, a := range x.Call.Args {
-							if a == se.recv {
-								ri = i
-							}
-							if a == se.printer {
-								pi = i
-							}
+				// a helper of the module that receives the printer: execute it in line, its parameters bound to what
+				// the arguments are known to be (the value being printed, texts, argument lists)
+				if se.printer != nil {
+					callee := sx.Callee(x)
+					pi := -1
+					for i, a := range x.Call.Args {
+						if a == se.printer {
+							pi = i
 						}
-						if ri >= 0 && pi >= 0 && ri < len(callee.Params) && pi < len(callee.Params) {
-							sub := &symExec{fn: callee, recv: callee.Params[ri], printer: callee.Params[pi], limit: se.limit}
-							sub.runFrom(callee.Blocks[0], out, f.conds, depth+1)
-							if sub.bad != "" {
-								se.bad = sub.bad
-								return
-							}
-							for _, sp := range sub.paths {
-								walk(symFrame{f.b, ii + 1, f.pred, env, sp.conds, sp.text, seen})
-							}
+					}
+					if pi >= 0 {
+						if callee == nil || callee.Blocks == nil || !load.IsModPath(pkgPathOf(callee)) || depth >= 3 || pi >= len(callee.Params) {
+							se.bad = "the printer is handed to " + sx.TrimMod(sx.CalleeName(x)) + ", which cannot be followed"
 							return
 						}
+						sub := &symExec{fn: callee, printer: callee.Params[pi], limit: se.limit}
+						sst := newSymState()
+						for i, a := range x.Call.Args {
+							if i >= len(callee.Params) || i == pi {
+								continue
+							}
+							prm := callee.Params[i]
+							switch {
+							case a == se.recv:
+								sub.recv = prm
+							case isSliceT(prm.Type()):
+								if el, ok := se.sliceOf(a, st); ok {
+									sst.slices[prm] = el
+								}
+							default:
+								if n, ok := st.intOf(a); ok {
+									sst.ints[prm] = n
+								} else {
+									sst.env[prm] = se.evalText(a, env, 0)
+								}
+							}
+						}
+						sub.runFrom(callee.Blocks[0], out, f.conds, depth+1, sst)
+						se.steps += sub.steps
+						if sub.bad != "" {
+							se.bad = sub.bad
+							return
+						}
+						for _, sp := range sub.paths {
+							walk(symFrame{f.b, ii + 1, f.pred, st.clone(), sp.conds, sp.text})
+						}
+						return
 					}
 				}
 			case *ssa.Return:
@@ -255,7 +475,30 @@ func (se *symExec) runFrom(start *ssa.BasicBlock, initial symText, conds map[str
 				se.paths = append(se.paths, p)
 				return
 			case *ssa.If:
+				if truth, known := st.bools[x.Cond]; known {
+					i := 1
+					if truth {
+						i = 0
+					}
+					walk(symFrame{f.b.Succs[i], 0, f.b, st, f.conds, out})
+					return
+				}
 				key, pos, ok := se.condOf(x.Cond)
+				if !ok {
+					// a test of a text this path knows: decided when the text is a constant
+					if bin, isBin := x.Cond.(*ssa.BinOp); isBin && (bin.Op == token.EQL || bin.Op == token.NEQ) && isStringType(bin.X.Type()) {
+						l, okL := constText(se.evalText(bin.X, env, 0))
+						r, okR := constText(se.evalText(bin.Y, env, 0))
+						if okL && okR {
+							i := 1
+							if (l == r) == (bin.Op == token.EQL) {
+								i = 0
+							}
+							walk(symFrame{f.b.Succs[i], 0, f.b, st, f.conds, out})
+							return
+						}
+					}
+				}
 				for i, s := range f.b.Succs {
 					conds := map[string]bool{}
 					for k, v := range f.conds {
@@ -271,16 +514,33 @@ func (se *symExec) runFrom(start *ssa.BasicBlock, initial symText, conds map[str
 						se.bad = "condition not over receiver fields: " + describeVal(x.Cond)
 						return
 					}
-					walk(symFrame{s, 0, f.b, env, conds, out, seen})
+					walk(symFrame{s, 0, f.b, st, conds, out})
 				}
 				return
 			case *ssa.Jump:
-				walk(symFrame{f.b.Succs[0], 0, f.b, env, f.conds, out, seen})
+				walk(symFrame{f.b.Succs[0], 0, f.b, st, f.conds, out})
 				return
 			}
 		}
 	}
-	walk(symFrame{start, 0, nil, map[ssa.Value]symText{}, conds, initial, nil})
+	walk(symFrame{start, 0, nil, st0, conds, initial})
+}
+
+func isSliceT(t types.Type) bool {
+	_, ok := types.Unalias(t).Underlying().(*types.Slice)
+	return ok
+}
+
+// constText: the text consists of constants only.
+func constText(t symText) (string, bool) {
+	var sb strings.Builder
+	for _, a := range t {
+		if a.Field != "" || a.ErrText != "" || a.Other != "" {
+			return "", false
+		}
+		sb.WriteString(a.Const)
+	}
+	return sb.String(), true
 }
 
 func pkgPathOf(fn *ssa.Function) string {
@@ -291,7 +551,7 @@ func pkgPathOf(fn *ssa.Function) string {
 }
 
 // printfText renders a constant format with symbolic arguments.
-func (se *symExec) printfText(format string, args []ssa.Value, env map[ssa.Value]symText) symText {
+func printfText(format string, args []symText) symText {
 	var out symText
 	ai := 0
 	for len(format) > 0 {
@@ -311,7 +571,7 @@ func (se *symExec) printfText(format string, args []ssa.Value, env map[ssa.Value
 			out = append(out, textAtom{Const: "%"})
 		case 's', 'v', 'd':
 			if ai < len(args) {
-				out = append(out, se.evalText(args[ai], env, 0)...)
+				out = append(out, args[ai]...)
 			} else {
 				out = append(out, textAtom{Other: "missing argument"})
 			}
